@@ -146,8 +146,14 @@ def run_case(inp):
     n, N = inp["n"], 44
     scale = float(inp["scale"])
     tmpl = _template(inp["seed"], n)
-    rots = [Rotation.identity(), Rotation.from_euler("z", 30, degrees=True), Rotation.from_euler("z", -30, degrees=True),
-            Rotation.from_euler("x", 25, degrees=True)][: inp["K"]]
+    rotset = inp.get("rotset", "mixed")
+    if rotset == "mixed":
+        rots = [Rotation.identity(), Rotation.from_euler("z", 30, degrees=True), Rotation.from_euler("z", -30, degrees=True),
+                Rotation.from_euler("x", 25, degrees=True)][: inp["K"]]
+    else:
+        # searches restricted to one axis (list form, or the ((max, step), …) range form of the same set)
+        ax = rotset[0]
+        rots = [Rotation.identity(), Rotation.from_euler(ax, 20, degrees=True), Rotation.from_euler(ax, -20, degrees=True)]
     M = _models()[inp["model"]]
     r = np.random.default_rng(inp["seed"] + 1)
     nm = inp["nmol"]
@@ -169,6 +175,10 @@ def run_case(inp):
         viols.append({"clause": clause, "desc": desc, "input": dict(inp)})
 
     kw = dict(rotations=rots) if len(rots) > 1 else {}
+    if rotset.endswith("range"):
+        # the three ranges are about acryo's z, y, x axes; a scipy Rotation acts on (x, y, z) vectors, so scipy's
+        # "z" is the last range
+        kw = dict(rotations=tuple((20, 20) if a == rotset[0] else (0, 0) for a in "xyz"))
     ms = float(inp["max_shifts"]) * scale
     via = inp["via"]
     try:
@@ -241,6 +251,14 @@ def oracle(rng, thorough, deep=False, hints=None):
     for sc, dd in ((2.0, [2.0, -2.0, 1.0]), (0.5, [-2.0, 1.0, 2.0])):
         cases.append(dict(via="align_list", model="ZNCC", n=16, scale=sc, K=1, ks=[0], nmol=1, d=dd, max_shifts=3.0,
                           seed=int(rng.integers(0, 10 ** 6))))
+    # always: rotation searches about a single axis (both ways of writing them), and pixel sizes far from 1
+    for it, rs in enumerate(["y", "yrange", "x", "zrange", "xrange", "z"][: 6 if big else 3]):
+        cases.append(dict(via=["single", "batch", "multi"][it % 3], model=["ZNCC", "PCC"][it % 2], n=16,
+                          scale=float([1.0, 0.5][it % 2]), K=3, rotset=rs, ks=[1 + it % 2, 2 - it % 2, 1], nmol=2 if it % 3 == 1 else 1,
+                          d=[float(x) for x in rng.integers(-1, 2, size=3)], max_shifts=2.0, seed=int(rng.integers(0, 10 ** 6))))
+    for it, sc in enumerate([0.01, 37.5, 0.003][: 3 if big else 2]):
+        cases.append(dict(via=["single", "batch", "group"][it % 3], model=["ZNCC", "PCC", "NCC"][it % 3], n=16, scale=sc, K=1, ks=[0],
+                          nmol=2 if it % 3 else 1, d=[0.5, -1.5, 1.0], max_shifts=2.0, seed=int(rng.integers(0, 10 ** 6))))
     for it in range(20 if big else 6):
         K = [3, 1, 4][it % 3]
         cases.append(dict(via=vias[it % len(vias)], model=["ZNCC", "NCC", "PCC"][it % 3] if it % 4 != 3 else "ZNCC",
